@@ -36,6 +36,35 @@ type verdict struct {
 // begin numbers and logs one operation and returns the fault planned for it.
 var opMu sync.Mutex
 
+var (
+	written  int64 // bytes written so far through this seam
+	diskFull bool
+)
+
+// fullDisk implements the plan's FullAfter: it returns (bytes that still fit, true)
+// when the operation must fail with ENOSPC.
+func fullDisk(call string, size int) (int, bool) {
+	lim := simrt.ThePlan.FullAfter
+	if lim <= 0 {
+		return 0, false
+	}
+	opMu.Lock()
+	defer opMu.Unlock()
+	if diskFull {
+		simrt.Logf("disk-full %s size=%d keep=0", call, size)
+		return 0, true
+	}
+	if written+int64(size) > lim {
+		keep := int(lim - written)
+		written = lim
+		diskFull = true
+		simrt.Logf("disk-full %s size=%d keep=%d", call, size, keep)
+		return keep, true
+	}
+	written += int64(size)
+	return 0, false
+}
+
 func begin(call, path string, size int) verdict {
 	opMu.Lock()
 	defer opMu.Unlock()
@@ -176,6 +205,12 @@ func WriteFile(name string, data []byte, perm fs.FileMode) error {
 		}
 		return perr("write", name, v.errn)
 	}
+	if k, full := fullDisk("WriteFile", len(data)); full {
+		if err := os.WriteFile(name, data[:k], perm); err != nil {
+			return err
+		}
+		return perr("write", name, syscall.ENOSPC)
+	}
 	return os.WriteFile(name, data, perm)
 }
 
@@ -184,6 +219,11 @@ func MkdirAll(path string, perm fs.FileMode) error {
 	defer v.end()
 	if v.isErr() {
 		return perr("mkdir", path, v.errn)
+	}
+	if _, err := os.Stat(path); err != nil {
+		if _, full := fullDisk("MkdirAll", 0); full && diskFull {
+			return perr("mkdir", path, syscall.ENOSPC)
+		}
 	}
 	return os.MkdirAll(path, perm)
 }
@@ -326,6 +366,13 @@ func (f *File) Write(b []byte) (int, error) {
 			return n, err
 		}
 		return n, perr("write", f.File.Name(), v.errn)
+	}
+	if k, full := fullDisk("Write", len(b)); full {
+		n, err := f.File.Write(b[:k])
+		if err != nil {
+			return n, err
+		}
+		return n, perr("write", f.File.Name(), syscall.ENOSPC)
 	}
 	return f.File.Write(b)
 }
